@@ -84,6 +84,11 @@ M = [
      "        kwargs.setdefault(\"interpolation\", None)\n        super().__init__(*args, **kwargs)\n\n\nclass LibraryConfig", "        super().__init__(*args, **kwargs)\n\n\nclass LibraryConfig"),
     ("C18", "init-client-appver-swapped", "scripts/ofxget.py",
      "        appid=args[\"appid\"] or None,\n        appver=args[\"appver\"] or None,", "        appid=args[\"appver\"] or None,\n        appver=args[\"appid\"] or None,"),
+    ("C18", "init-client-pretty-dropped", "scripts/ofxget.py",
+     "        prettyprint=args[\"pretty\"],", "        prettyprint=None,"),
+    ("C18", "nonewfileuid-inverted-in-stmt", "scripts/ofxget.py",
+     "        dryrun=args[\"dryrun\"],\n        gen_newfileuid=not args[\"nonewfileuid\"],\n        skip_profile=args[\"skipprofile\"],\n    ) as f:\n        response = f.read()\n\n    print(response.decode())\n\n    if args[\"write\"]:\n        write_config(args)\n\n    if args[\"savepass\"]:\n        save_passwd(args, password)\n\n\ndef request_stmtend",
+     "        dryrun=args[\"dryrun\"],\n        gen_newfileuid=True,\n        skip_profile=args[\"skipprofile\"],\n    ) as f:\n        response = f.read()\n\n    print(response.decode())\n\n    if args[\"write\"]:\n        write_config(args)\n\n    if args[\"savepass\"]:\n        save_passwd(args, password)\n\n\ndef request_stmtend"),
     ("C18", "scan-saves-lowest-version", "scripts/ofxget.py",
      "    args[\"version\"] = versions[-1]", "    args[\"version\"] = versions[0]"),
     ("C18", "scan-write-ignores-result", "scripts/ofxget.py",
